@@ -5,7 +5,7 @@ cov['parts']=[p['coverage'] for p in parts]
 for p in parts[1:]:
     c=p['coverage']
     for k,v in c.items():
-        if k=='samples': cov['samples']=list(cov.get('samples',[]))+list(v)
+        if k=='samples': cov['samples']=list(cov.get('samples') or [])+list(v or [])
         elif k=='exhaustive': cov['exhaustive']=bool(cov.get('exhaustive',True)) and bool(v)
         elif isinstance(v,int) and not isinstance(v,bool) and isinstance(cov.get(k,0),int) and k not in ('max_depth','depth_bound','histories_depth_bound'): cov[k]=cov.get(k,0)+v
         elif k not in cov: cov[k]=v
